@@ -213,6 +213,15 @@ func convertTo(mappings map[string]any, typ reflect.Type) (any, error) {
 func assignOne(destValue reflect.Value, taken any, to string) (reflect.Value, error) {
 	if len(to) == 0 { // assign to output directly
 		toSet := reflect.ValueOf(taken)
+		if !toSet.IsValid() {
+			// a nil value: keep the zero value of a nilable destination, anything else cannot hold nil
+			switch destValue.Kind() {
+			case reflect.Map, reflect.Slice, reflect.Ptr, reflect.Interface:
+				return reflect.Zero(destValue.Type()), nil
+			default:
+				return destValue, fmt.Errorf("mapping entire value from nil to type=%v, which cannot be nil", destValue.Type())
+			}
+		}
 		if !toSet.Type().AssignableTo(destValue.Type()) {
 			return destValue, fmt.Errorf("mapping entire value has a mismatched type. from=%v, to=%v", toSet.Type(), destValue.Type())
 		}
@@ -629,14 +638,19 @@ func takeOne(inputValue reflect.Value, inputType reflect.Type, from string) (tak
 
 		return f.Interface(), f.Type(), nil
 	default:
+		// inputValue is the zero Value when the interface-typed intermediate holds nil
+		var actualType reflect.Type
+		if inputValue.IsValid() {
+			actualType = inputValue.Type()
+		}
 		if inputType.Kind() == reflect.Interface {
 			return nil, nil, &errInterfaceNotValidForFieldMapping{
 				interfaceType: inputType,
-				actualType:    inputValue.Type(),
+				actualType:    actualType,
 			}
 		}
 
-		return reflect.Value{}, nil, fmt.Errorf("field mapping from a field, but input is not struct, struct ptr or map, type= %v", inputValue.Type())
+		return reflect.Value{}, nil, fmt.Errorf("field mapping from a field, but input is not struct, struct ptr or map, type= %v", actualType)
 	}
 }
 
@@ -713,6 +727,14 @@ func validateFieldMapping(predecessorType reflect.Type, successorType reflect.Ty
 		if predecessorIntermediateInterface {
 			checker := func(a any) (any, error) {
 				trueInType := reflect.TypeOf(a)
+				if trueInType == nil {
+					switch successorFieldType.Kind() {
+					case reflect.Map, reflect.Slice, reflect.Ptr, reflect.Interface:
+						return a, nil
+					default:
+						return nil, fmt.Errorf("runtime check failed for mapping %s, field[%v]-[%v] is absolutely not assignable", mapping, trueInType, successorFieldType)
+					}
+				}
 				if !trueInType.AssignableTo(successorFieldType) {
 					return nil, fmt.Errorf("runtime check failed for mapping %s, field[%v]-[%v] is absolutely not assignable", mapping, trueInType, successorFieldType)
 				}
